@@ -154,9 +154,12 @@ def add_maybe_exponent_stripped(x, y):
         ym = y
         ye = 0.0
 
-    # perform branchless for jit etc.
     e = max(xe, ye)
-    m = xm * 10 ** (xe - e) + ym * 10 ** (ye - e)
+    # n.b. if both exponents are ``-inf`` (both terms are exactly zero, as
+    # returned with ``check_zero=True``) then ``xe - e`` is nan rather than 0
+    sx = 1.0 if xe == e else 10 ** (xe - e)
+    sy = 1.0 if ye == e else 10 ** (ye - e)
+    m = xm * sx + ym * sy
 
     return (m, e)
 
@@ -3360,8 +3363,29 @@ class ContractionTree:
         if isinstance(next(iter(chunks.values())), tuple):
             # have stripped exponents, need to scale to largest
             emax = max(v[1] for v in chunks.values())
+            if (emax == float("-inf")) and all(
+                (getattr(mi, "shape", ()) == ()) and (mi == 0.0)
+                for mi, _ in chunks.values()
+            ):
+                # every chunk was found to be exactly zero (``check_zero=True``)
+                return 0.0, float("-inf")
             chunks = {
-                k: mi * 10 ** (ei - emax) for k, (mi, ei) in chunks.items()
+                k: mi * (1.0 if ei == emax else 10 ** (ei - emax))
+                for k, (mi, ei) in chunks.items()
+            }
+            # a chunk found to be exactly zero with ``check_zero=True`` is the
+            # scalar 0.0: broadcast it to the shape of the other chunks
+            template = max(
+                chunks.values(), key=lambda x: len(getattr(x, "shape", ()))
+            )
+            tshape = getattr(template, "shape", ())
+            chunks = {
+                k: (
+                    x
+                    if getattr(x, "shape", ()) == tshape
+                    else x + do("zeros_like", template, like=backend)
+                )
+                for k, x in chunks.items()
             }
         else:
             emax = None
